@@ -524,6 +524,148 @@ type xeEl struct {
 	// optional children of EncryptionMethod (round 4)
 	Oaepp string `json:"oaepp,omitempty"` // xenc:OAEPparams: absent | empty | label
 	Ks    bool   `json:"ks,omitempty"`    // xenc:KeySize present, holding the size the algorithm implies
+	// round 5
+	Mgfid string `json:"mgfid,omitempty"` // lexical class of the Algorithm identifier of xenc11:MGF (table MgfId): none | w3c | ...
+	ID    string `json:"id,omitempty"`    // Id attribute: none | empty | a name
+	Ki    []xeKi `json:"ki,omitempty"`    // ds:KeyInfo as the sequence of its items in document order (empty: EncryptedKeys, then X509Data)
+}
+
+// xeKi is an item of ds:KeyInfo (operator Item of the spec): an inline EncryptedKey (k = ek: the n-th of Eks), the
+// X509Data of the element (x509), a ds:KeyName (name), a ds:RetrievalMethod (rm) whose URI has the lexical class
+// Uri and, where the class names an element, names the element whose Id is To.
+type xeKi struct {
+	K   string `json:"k"`
+	N   int    `json:"n"`
+	Uri string `json:"uri"`
+	To  string `json:"to"`
+}
+
+// ---------------------------------------------------------------------------
+// identifiers as strings (tables MgfId and RmUri of spec/XmlEnc.tla)
+
+const uriTypeEncryptedKey = nsXenc + "EncryptedKey"
+
+// xeMgfIdText is the Algorithm attribute of an xenc11:MGF element of lexical class c (present = false: no attribute).
+func xeMgfIdText(c, mgf string) (text string, present bool) {
+	switch c {
+	case "noattr":
+		return "", false
+	case "empty":
+		return "", true
+	case "bare-short":
+		return "mgf", true
+	case "bare-long":
+		return "mgf1sha256", true
+	case "hash-last":
+		return nsXenc11, true
+	case "short":
+		return nsXenc11 + "mgf", true
+	case "short-foreign":
+		return "urn:x#sha", true
+	case "unknown":
+		return nsXenc11 + "mgf1sha3-256", true
+	case "unknown-foreign":
+		return "http://example.com/verif/unknown#mgf1sha256", true
+	case "", "w3c":
+		return refMgfURI(mgf), true
+	}
+	panic("harness: unknown class of MGF identifier " + c)
+}
+
+// xeMgfIdRow describes an identifier the way table MgfId does.
+type xeMgfIdRow struct {
+	Attr bool   `json:"attr"`
+	Hash bool   `json:"hash"`
+	Tail string `json:"tail"` // characters behind the last '#' (without '#': of the identifier): 0 | 1-3 | 4+
+	W3c  bool   `json:"w3c"`
+}
+
+func xeMgfIdRowOf(text string, present bool) xeMgfIdRow {
+	i := strings.LastIndex(text, "#")
+	n := len(text) - (i + 1)
+	tail := "4+"
+	switch {
+	case n == 0:
+		tail = "0"
+	case n < 4:
+		tail = "1-3"
+	}
+	return xeMgfIdRow{Attr: present, Hash: i >= 0, Tail: tail, W3c: present && refMgfByURI(text) != nil}
+}
+
+// xeIDText is the Id attribute of an element whose symbolic Id is id (ok = false: no attribute).
+func xeIDText(id string) (string, bool) {
+	switch id {
+	case "", "none":
+		return "", false
+	case "empty":
+		return "", true
+	}
+	return "_" + id, true
+}
+
+// xeRmURIText is the URI attribute of a ds:RetrievalMethod of lexical class c meaning the element whose Id is to.
+func xeRmURIText(c, to string) (text string, present bool) {
+	t, _ := xeIDText(to)
+	switch c {
+	case "plain":
+		return "#" + t, true
+	case "dangling":
+		return "#_nobody", true
+	case "empty":
+		return "", true
+	case "noattr":
+		return "", false
+	case "hashonly":
+		return "#", true
+	case "bare":
+		return t, true
+	case "quote":
+		return "#it's" + t, true
+	case "dquote":
+		return "#" + t + `"1`, true
+	case "brackets":
+		return "#" + t + "[1]", true
+	case "xpointer":
+		return "#xpointer(id('" + t + "'))", true
+	case "external":
+		return "http://example.com/keys.xml#" + t, true
+	}
+	panic("harness: unknown class of RetrievalMethod URI " + c)
+}
+
+// xeRmUriRow describes a URI the way table RmUri does.
+type xeRmUriRow struct {
+	Attr    bool     `json:"attr"`
+	Frag    bool     `json:"frag"`
+	Idtext  string   `json:"idtext"`  // what remains behind a leading '#': to | empty | other
+	Special []string `json:"special"` // quote, bracket
+	Denotes string   `json:"denotes"` // to | none
+}
+
+func xeRmUriRowOf(text string, present bool, to string) xeRmUriRow {
+	t, _ := xeIDText(to)
+	r := xeRmUriRow{Attr: present, Frag: strings.HasPrefix(text, "#"), Special: []string{}, Denotes: "none"}
+	rest := strings.TrimPrefix(text, "#")
+	switch {
+	case rest == "":
+		r.Idtext = "empty"
+	case rest == t:
+		r.Idtext = "to"
+	default:
+		r.Idtext = "other"
+	}
+	if strings.Contains(rest, "[") {
+		r.Special = append(r.Special, "bracket")
+	}
+	if strings.Contains(rest, "'") {
+		r.Special = append(r.Special, "quote")
+	}
+	// XML-Signature 4.4.3.2 / 4.4.3.3: "#id" and "#xpointer(id('id'))" are the same-document references to an element
+	if r.Frag && t != "" && (rest == t || rest == "xpointer(id('"+t+"'))") {
+		r.Denotes = "to"
+	}
+	return r
 }
 
 // xeCtx holds the concrete byte strings behind the symbolic identifiers of one vector.
@@ -665,6 +807,9 @@ func (c *xeCtx) build(e xeEl, tag string) *etree.Element {
 	el := etree.NewElement("xenc:" + tag)
 	el.CreateAttr("xmlns:xenc", nsXenc)
 	el.CreateAttr("xmlns:ds", nsDsig)
+	if id, ok := xeIDText(e.ID); ok {
+		el.CreateAttr("Id", id)
+	}
 	if e.Em != "absent" {
 		em := el.CreateElement("xenc:EncryptionMethod")
 		switch e.Em {
@@ -689,7 +834,9 @@ func (c *xeCtx) build(e xeEl, tag string) *etree.Element {
 		if e.Mgf != "absent" {
 			m := em.CreateElement("xenc11:MGF")
 			m.CreateAttr("xmlns:xenc11", nsXenc11)
-			m.CreateAttr("Algorithm", refMgfURI(e.Mgf))
+			if txt, ok := xeMgfIdText(e.Mgfid, e.Mgf); ok {
+				m.CreateAttr("Algorithm", txt)
+			}
 		}
 		switch e.Dm.K {
 		case "unknown":
@@ -703,12 +850,12 @@ func (c *xeCtx) build(e xeEl, tag string) *etree.Element {
 			em.CreateElement("ds:DigestMethod").CreateAttr("Algorithm", u)
 		}
 	}
-	if e.Cert != "absent" || len(e.Eks) > 0 {
+	if e.Cert != "absent" || len(e.Eks) > 0 || len(e.Ki) > 0 {
 		ki := el.CreateElement("ds:KeyInfo")
-		for _, k := range e.Eks {
-			ki.AddChild(c.build(k, "EncryptedKey"))
-		}
-		if e.Cert != "absent" {
+		x509 := func() {
+			if e.Cert == "absent" { // left to the caller (c11AddX509 writes the X509Data at this place)
+				return
+			}
 			txt := ""
 			if e.Cert == "garbage" {
 				txt = []string{"", "AAAA", "%%% not base64 %%%", base64.StdEncoding.EncodeToString(c.random(200)), "MIIC"}[c.rng.Intn(5)]
@@ -716,6 +863,30 @@ func (c *xeCtx) build(e xeEl, tag string) *etree.Element {
 				txt = key(e.Cert).CertB64()
 			}
 			ki.CreateElement("ds:X509Data").CreateElement("ds:X509Certificate").SetText(txt)
+		}
+		if len(e.Ki) == 0 { // the order of the families without an explicit sequence: EncryptedKeys, then X509Data
+			for _, k := range e.Eks {
+				ki.AddChild(c.build(k, "EncryptedKey"))
+			}
+			x509()
+		}
+		for _, it := range e.Ki {
+			switch it.K {
+			case "ek":
+				ki.AddChild(c.build(e.Eks[it.N-1], "EncryptedKey"))
+			case "x509":
+				x509()
+			case "name":
+				ki.CreateElement("ds:KeyName").SetText("verif key " + fmt.Sprint(c.rng.Intn(1000)))
+			case "rm":
+				rm := ki.CreateElement("ds:RetrievalMethod")
+				if u, ok := xeRmURIText(it.Uri, it.To); ok {
+					rm.CreateAttr("URI", u)
+				}
+				rm.CreateAttr("Type", uriTypeEncryptedKey)
+			default:
+				panic("harness: unknown KeyInfo item " + it.K)
+			}
 		}
 	}
 	switch e.Cv {
